@@ -344,28 +344,63 @@ theorem central_loop_consumes (off n : Nat) {fa : Option Nat} {d d' : Dev} {file
 `HashMap::with_capacity` by `ZipArchive::new`.  `Tie/ReaderGlue.lean` (`tie_zip_archive_new`) shows that the
 TRANSLATED `ZipArchive::new` requests exactly the capacity that `openArchiveAlloc` reports. -/
 
-/-- The pre-allocation is at most `cde_start_pos` elements, and `cde_start_pos + 22 ≤ len` whenever
-the EOCD search succeeded: a declared count of 2^64 - 1 reserves nothing. -/
-theorem prealloc_bound (numberOfFiles : Nat) {fa : Option Nat} {d d' : Dev} {e : Eocd} {cde : Nat}
+/-- The pre-allocation, in elements: every reserved slot is paid for by 46 input bytes lying between the declared
+start of the directory and the end record, and the end record starts at `cde_start_pos ≤ len - 22` whenever the
+EOCD search succeeded.  A declared count of 2^64 - 1 reserves nothing; so does any count when the directory is
+declared to start behind the end record.  (Strengthened with the repair of finding F1: the unrepaired code
+compared the count with `cde_start_pos`, which only gave `capacity ≤ cde_start_pos`, one slot per input BYTE —
+`prealloc_bound_old_guard_witness` below.) -/
+theorem prealloc_bound (numberOfFiles directoryStart : Nat) {fa : Option Nat} {d d' : Dev} {e : Eocd} {cde : Nat}
     (h : findAndParseEocd fa d = (.ok (e, cde), d')) :
-    fileCapacity numberOfFiles cde ≤ cde ∧ cde + 22 ≤ d.buf.length := by
+    fileCapacity numberOfFiles cde directoryStart * 46 ≤ cde - directoryStart ∧ cde + 22 ≤ d.buf.length := by
   refine ⟨?_, findAndParseEocd_cde_le h⟩
   unfold fileCapacity
   split <;> omega
 
-example : fileCapacity 18446744073709551615 1000 = 0 := by decide
-example : fileCapacity 3 1000 = 3 := by decide
+/-- Corollary in terms of the input length alone: at most `(len - 22) / 46` elements. -/
+theorem prealloc_le_len_div_46 (numberOfFiles directoryStart : Nat) {fa : Option Nat} {d d' : Dev} {e : Eocd}
+    {cde : Nat} (h : findAndParseEocd fa d = (.ok (e, cde), d')) :
+    fileCapacity numberOfFiles cde directoryStart ≤ (d.buf.length - 22) / 46 := by
+  obtain ⟨h1, h2⟩ := prealloc_bound numberOfFiles directoryStart h
+  rw [Nat.le_div_iff_mul_le (by omega)]
+  omega
+
+example : fileCapacity 18446744073709551615 1000 0 = 0 := by decide
+example : fileCapacity 3 1000 0 = 3 := by decide
+/-- exactly as many as fit: 21 headers of 46 bytes in 1000 bytes -/
+example : fileCapacity 21 1000 0 = 21 ∧ fileCapacity 22 1000 0 = 0 := by decide
+/-- the directory start counts: only 100 bytes are left for headers -/
+example : fileCapacity 3 1000 900 = 0 ∧ fileCapacity 2 1000 900 = 2 := by decide
+/-- a directory declared to start behind the end record has room for no header -/
+example : fileCapacity 1 1000 2000 = 0 := by decide
+
+/-- What the guard looked like before the repair (count compared with the position of the end record), and the
+witness of finding F1: with an end record at offset 8 000 076 a declared count of 8 000 076 was reserved in
+full — 8 000 076 elements (≈ 1.9 GB) for an 8 MB input, 46 times what the repaired guard allows for ANY input
+of that length. -/
+def fileCapacityOldGuard (numberOfFiles cdeStartPos : Nat) : Nat :=
+  if numberOfFiles > cdeStartPos then 0 else numberOfFiles
+
+theorem prealloc_bound_old_guard_witness :
+    fileCapacityOldGuard 8000076 8000076 = 8000076 ∧ fileCapacity 8000076 8000076 0 = 0 ∧
+    ∀ n, fileCapacity n 8000076 0 ≤ 173914 := by
+  refine ⟨by decide, by decide, fun n => ?_⟩
+  unfold fileCapacity
+  split <;> omega
 
 /-- The capacity `ZipArchive::new` requests before it has validated a single central header
-(`openArchiveAlloc` is the model function the translated source is tied to): at most `len - 22` elements,
-whatever count the archive declares, and exactly the declared count only when that count does not exceed the
-position of the end record. -/
+(`openArchiveAlloc` is the model function the translated source is tied to): 46 input bytes per reserved element,
+hence at most `len / 46` elements whatever count and directory offset the archive declares; the archive that is
+finally returned holds at most `len / 46` entries as well. -/
 theorem open_prealloc_bound {fa : Option Nat} {d d' : Dev} {a : Archive} {cap : Nat}
     (h : openArchiveAlloc fa d = (.ok (a, cap), d')) :
-    cap + 22 ≤ d.buf.length ∧ a.files.length ≤ d.buf.length / 46 := by
-  obtain ⟨hfiles, e, cde, d1, n, h1, hcap⟩ := openArchiveAlloc_bounds h
-  have hb := prealloc_bound n h1
-  refine ⟨by omega, by omega⟩
+    cap * 46 + 22 ≤ d.buf.length ∧ cap ≤ d.buf.length / 46 ∧ a.files.length ≤ d.buf.length / 46 := by
+  obtain ⟨hfiles, e, cde, d1, n, ds, h1, hcap⟩ := openArchiveAlloc_bounds h
+  have hb := prealloc_bound n ds h1
+  have h46 : cap * 46 + 22 ≤ d.buf.length := by omega
+  refine ⟨h46, ?_, by omega⟩
+  rw [Nat.le_div_iff_mul_le (by omega)]
+  omega
 
 /-- Every transient buffer of the parsers (`vec![0; n]` for the archive comment, entry names, extra
 fields, entry comments) has a 16-bit length: the lengths come from `u16` fields, and a successful
@@ -431,7 +466,7 @@ example : ∀ n < 22,
   decide +kernel
 
 /-- A liar: 65 535 entries declared (on-disk count 0xFFFF), central directory "at offset 0".  The
-capacity guard reserves nothing (65535 > cde_start_pos = 0) and the first header fails. -/
+capacity guard reserves nothing (65535 > (cde_start_pos - directory_start) / 46 = 0) and the first header fails. -/
 def liarCount : Bytes :=
   [0x50, 0x4b, 0x05, 0x06, 0, 0, 0, 0, 0xff, 0xff, 0xff, 0xff, 0, 0, 0, 0, 0, 0, 0, 0, 0, 0]
 
@@ -439,7 +474,7 @@ example : outcome (openArchive.runPure (Dev.ofBytes liarCount)).1 = "err invalid
 example : outcome (newAppend.runPure (Dev.ofBytes liarCount)).1 = "err invalid" := by decide +kernel
 example : outcome ((streamVisit storedExt).runPure (Dev.ofBytes liarCount)).1 = "err invalid" := by
   decide +kernel
-example : fileCapacity 65535 0 = 0 := by decide
+example : fileCapacity 65535 0 0 = 0 := by decide
 
 /-- A liar entry whose local header offset is 2^64 - 1: `find_content` fails with `UnexpectedEof`
 at the signature read — the overflowing addition of read.rs:201 is never evaluated. -/
@@ -483,6 +518,13 @@ def openAndRead (bytes : Bytes) (i : Nat) : Option (Nat × Bytes) :=
 
 example : okEntries (openArchive.runPure (Dev.ofBytes oneEntry)).1 = some 1 := by decide +kernel
 example : openAndRead oneEntry 0 = some (31, [0x5a]) := by decide +kernel
+
+/-- `open_prealloc_bound` on an archive that does reserve: one entry declared, 47 bytes between the directory start
+(32) and the end record (79) - room for exactly one header -, one slot requested, one entry returned. -/
+example : (match (openArchiveAlloc.runPure (Dev.ofBytes oneEntry)).1 with
+    | .ok (a, cap) => a.files.length == 1 && cap == 1
+    | _ => false) = true := by decide +kernel
+example : fileCapacity 1 79 32 = 1 ∧ fileCapacity 2 79 32 = 0 := by decide
 
 /-- The calls of the property statement, in one script. -/
 def fullScript : List Step :=
